@@ -1,8 +1,176 @@
 import Flatland.JsonUtil
+import Flatland.C17
+import Flatland.Spec.C17
 open Lean Flatland.J
 namespace Flatland.Run.C17
+open Flatland.C17
 
-/-- JSON case in, JSON observation out (stub until the model of C17 is written). -/
-def run (_j : Json) : Except String Json := .error "model runner for C17 not implemented yet"
+def parseVal (j : Json) : Except String Val :=
+  match j with
+  | .null => pure .none
+  | .str s => pure (.str s.toList)
+  | .num _ => do return .int (← j.getInt?)
+  | _ => throw "bad value"
+
+def parsePair (j : Json) : Except String (Key × Val) := do
+  match (← arr j) with
+  | [k, v] => return (← chars k, ← parseVal v)
+  | _ => throw "bad pair"
+
+def parsePairs (j : Json) (k : String) : Except String (List (Key × Val)) := do
+  (← afld j k).mapM parsePair
+
+def parseView (j : Json) : Except String View := do
+  match (← arr j) with
+  | [t, n] =>
+    match (← str t) with
+    | "c" => return .cls (← nat n)
+    | "i" => return .inst (← nat n)
+    | s => throw s!"bad view kind {s}"
+  | _ => throw "bad view"
+
+def parseOp (j : Json) : Except String Op := do
+  match (← sfld j "op") with
+  | "getitem" => return .getitem (← cfld j "k")
+  | "setitem" => return .setitem (← cfld j "k") (← parseVal (← fld j "v"))
+  | "delitem" => return .delitem (← cfld j "k")
+  | "clear" => return .clear
+  | "pop" =>
+    let d := fldD j "dflt" (Json.arr #[])
+    -- "dflt": [] = no default given, [v] = default v
+    match (← arr d) with
+    | [] => return .pop (← cfld j "k") none
+    | [v] => return .pop (← cfld j "k") (some (← parseVal v))
+    | _ => throw "bad dflt"
+  | "setdefault" =>
+    match (← arr (fldD j "dflt" (Json.arr #[]))) with
+    | [] => return .setdefault (← cfld j "k") .none
+    | [v] => return .setdefault (← cfld j "k") (← parseVal v)
+    | _ => throw "bad dflt"
+  | "get" =>
+    match (← arr (fldD j "dflt" (Json.arr #[]))) with
+    | [] => return .get (← cfld j "k") .none
+    | [v] => return .get (← cfld j "k") (← parseVal v)
+    | _ => throw "bad dflt"
+  | "update" => return .update (← parsePairs j "pairs")
+  | "items" => return .items
+  | "keys" => return .keys
+  | "values" => return .values
+  | "contains" => return .contains (← cfld j "k")
+  | "bool" => return .bool
+  | "eq" => return .eq (← parsePairs j "other")
+  | "ne" => return .ne (← parsePairs j "other")
+  | "copy" => return .copy
+  | "popitem" => return .popitem
+  | s => throw s!"bad op {s}"
+
+def parseCmd (j : Json) : Except String Cmd := do
+  match (← sfld j "t") with
+  | "op" => return .op (← parseView (← fld j "view")) (← parseOp j)
+  | "subclass" => return .subclass (← nfld j "p")
+  | "mi" => return .subclassMI (← (← afld j "mro").mapM nat)
+  | "using_props" => return .usingProps (← nfld j "p") (← parsePairs j "init")
+  | "using_shared" => return .usingShared (← nfld j "p") (← nfld j "owner")
+  | "with_props" => return .withProps (← nfld j "p") (← parsePairs j "pairs")
+  | "new" => return .newInst (← nfld j "c")
+  | "new_with" => return .newInstWith (← nfld j "c") (← parsePairs j "m")
+  | "assign" => return .assign (← nfld j "i") (← parsePairs j "m")
+  | "new_with_compound" => return .newInstCompound (← nfld j "c") (← parsePairs j "m")
+  | s => throw s!"bad cmd {s}"
+
+def ofVal : Val → Json
+  | .none => Json.null
+  | .int i => ofInt i
+  | .str s => ofChars s
+
+def ofPairs (l : List (Key × Val)) : Json :=
+  ofList (fun (kv : Key × Val) => Json.arr #[ofChars kv.1, ofVal kv.2]) l
+
+def errName : Err → String
+  | .keyError => "KeyError"
+  | .notImplemented => "NotImplementedError"
+  | .attributeError => "AttributeError"
+  | .badCase => "BadCase"
+
+def ofRes : Res → Json
+  | .unit => Json.null
+  | .val v => obj [("v", ofVal v)]
+  | .bool b => obj [("b", Json.bool b)]
+  | .items l => obj [("items", ofPairs l)]
+  | .keys l => obj [("keys", ofList ofChars l)]
+  | .vals l => obj [("vals", ofList ofVal l)]
+  | .err e => obj [("err", Json.str (errName e))]
+
+def allViews (σ : State) : List View :=
+  (List.range σ.classes.length).map View.cls ++ (List.range σ.insts.length).map View.inst
+
+def ofView : View → Json
+  | .cls c => Json.arr #[Json.str "c", ofNat c]
+  | .inst i => Json.arr #[Json.str "i", ofNat i]
+
+abbrev Snap := List (View × List (Key × Val))
+
+def snapshot (σ : State) : Snap := (allViews σ).map (fun v => (v, viewItems σ v))
+
+/-- views whose `items()` differ from the previous snapshot (new views always) -/
+def delta (old new : Snap) : List (View × List (Key × Val)) :=
+  new.filter (fun p => match old.find? (fun q => q.1 == p.1) with
+    | some q => q.2 != p.2
+    | none => true)
+
+def cmdKeys : Cmd → List Key
+  | .op _ o =>
+    match o with
+    | .getitem k | .delitem k | .contains k => [k]
+    | .setitem k _ | .pop k _ | .setdefault k _ | .get k _ => [k]
+    | .update ps | .eq ps | .ne ps => ps.map (·.1)
+    | _ => []
+  | .usingProps _ ps | .withProps _ ps | .newInstWith _ ps | .assign _ ps
+  | .newInstCompound _ ps => ps.map (·.1)
+  | _ => []
+
+def stateKeys (σ : State) : List Key :=
+  (σ.frames.flatMap (fun p => p.2.map (·.1))) ++
+    σ.insts.flatMap (fun x => match x.loc with | .storage f => f.map (·.1) | .plain m => m.map (·.1))
+
+/-- model A's reading of every view = spec B's overlay of the abstracted layers, on `keys` -/
+def readAgrees (σ : State) (keys : List Key) : Bool :=
+  (allViews σ).all (fun v =>
+    let items := viewItems σ v
+    keys.all (fun k => Spec.visible (Spec.abs σ) v k == AList.get? items k
+      && visible σ v k == AList.get? items k))
+
+/-- one step of A = one step of the layered store B (compared through every view, on `keys`) -/
+def stepAgrees (σ σ' : State) (c : Cmd) (keys : List Key) : Bool :=
+  let s' := Spec.step (Spec.abs σ) c
+  (allViews σ').all (fun v => keys.all (fun k => Spec.visible s' v k == Spec.visible (Spec.abs σ') v k))
+
+def run (j : Json) : Except String Json := do
+  let init ← parsePairs j "init"
+  let cmds ← (← afld j "cmds").mapM parseCmd
+  let mut σ := initState init
+  let mut snap := snapshot σ
+  let mut out : Array Json := #[]
+  let mut agrees := readAgrees σ (stateKeys σ)
+  let mut guarded : Nat := 0
+  let enc := fun (p : View × List (Key × Val)) => Json.arr #[ofView p.1, ofPairs p.2]
+  let first := ofList enc snap
+  for c in cmds do
+    let (σ', r) := step σ c
+    let snap' := snapshot σ'
+    out := out.push (obj [("r", ofRes r), ("d", ofList enc (delta snap snap'))])
+    let keys := (cmdKeys c ++ stateKeys σ ++ stateKeys σ').eraseDups
+    -- read_is_overlay needs coherence (single inheritance gives it); the step refinement in
+    -- addition needs unshared descriptors and excludes the instance-clear() of KF-C17-a
+    if Spec.coherent σ' then
+      agrees := agrees && readAgrees σ' keys
+    if Spec.coherent σ && Spec.coherent σ' && Spec.noShared σ' && !Spec.badClear σ c then
+      agrees := agrees && stepAgrees σ σ' c keys
+    else
+      guarded := guarded + 1
+    σ := σ'
+    snap := snap'
+  return obj [("start", first), ("steps", Json.arr out), ("spec_agrees", Json.bool agrees),
+    ("_guarded", ofNat guarded)]
 
 end Flatland.Run.C17
